@@ -58,7 +58,7 @@ def gen(rng: random.Random, tier: str, idx: int) -> dict:
             elif r < 0.55:
                 prog.append(["open_file", k])
             elif r < 0.67:
-                prog.append(["exists", rng.choice([k, k, "data", "metadata", "data/sub", "data/", "metadata/inflight"])])
+                prog.append(["exists", rng.choice([k, k, "data", "metadata", "data/sub", "data/", "metadata/inflight", "data/" + "x" * 300])])
             elif r < 0.82:
                 prog.append(["list", rng.choice(PREFIXES)])
             elif r < 0.9:
